@@ -19,7 +19,9 @@ CHECKS = {
             "glued to the last preamble piece) and wt opener -> raw reader (wire bytes compared with the minimal preamble + payload); six data "
             "directions; payload lengths across varint/window boundaries up to several flow-control windows (1 KiB stream window); all write "
             "compositions for short payloads and boundary families beyond; read / read_exact with six buffer sizes, tokio's AsyncRead through "
-            "read_to_end, tokio::io::copy and poll_read into a ReadBuf that is handed back partly filled (4 capacities); 1, 2, 3, 8 "
+            "read_to_end, tokio::io::copy and poll_read into a ReadBuf that is handed back partly filled (4 capacities); three writer flavours "
+            "(SendStream::write_all + finish; tokio's AsyncWrite on the SendStream with flush + shutdown; BiStream::join with write_all / "
+            "flush / shutdown through the trait and the BiStream kept alive); 1, 2, 3, 8 "
             "(thorough: also 20, 50, 90 of the transport's 100) concurrent streams in three write orders; payloads that begin with preamble "
             "look-alikes; one select! start deviation in the first 12 polls of the accept path (thorough: 24 polls, and pairs of deviations; "
             "every payload length 0..300 and each side of every window / packet boundary; triples of preamble cuts). Oracle: received bytes == sent bytes then end-of-stream, stream ids agree, no stream delivered twice. Part 'credit': "
@@ -91,7 +93,8 @@ CHECKS = {
     "C07": ("simx", "fault_enumeration", "DESIGN.md §6-C07",
             "Fault = k (1..6) peer-opened streams of kind uni/bidi stalled at one of 7 positions (no byte at all; first byte of "
             "the type; type only; first byte of a 2-byte session id; complete preamble then silence; preamble + one flow-control window "
-            "nobody reads; accepted by the application and never read) x 3 opening orders x both roles, plus mixed kinds / positions "
+            "nobody reads; accepted by the application and never read; abandoned with RESET_STREAM inside the type / inside the session "
+            "id; reserved or unknown stream type / first frame, left open) x 3 opening orders x both roles, plus mixed kinds / positions "
             "and all position pairs, plus many stalled streams - k in {8, 16, 17, 32, 64, 90} (thorough: every k in 1..90 for the four "
             "incomplete-preamble positions, and all position triples; the transport's limit is 100) of one kind and of alternating kinds, so "
             "that any fixed pool of pending-header slots is exhausted. "
@@ -109,7 +112,8 @@ CHECKS = {
             "4; thorough: N in 1..9,17,33,60,90 and 9/30/45 streams against limits of 2/7/10, cancellation at each of the first 33 indexes, "
             "select! deviations in 60 polls and in pairs) in 4 uni/bidi patterns towards either role; the application accepts with 1-3 concurrent tasks sharing the work, with 2-4 "
             "tasks that each leave after their own share (a stream arriving while several accept calls are pending must reach one of them, "
-            "the next stream one of those still waiting), with 10 ms / 1 s between "
+            "the next stream one of those still waiting), with one task that starts accepting 12 s / 25 s after the streams were opened, "
+            "with 10 ms / 1 s between "
             "accepts, with every accept future polled 0..3 times then dropped and reissued, and with that cancellation applied at each single "
             "stream index; plus select! start deviations on the worker loop. Oracle: the multiset of (kind, stream id, bytes) returned by "
             "accept calls equals the multiset opened - nothing lost, duplicated, invented or carrying another stream's bytes - before the horizon.",
@@ -182,7 +186,9 @@ CHECKS = {
             "growing buffer on one stream object; unknown / GREASE setting ids at every SETTINGS position; unknown capsule types. 'driver': the same "
             "kind of insertions (plus whole unknown / GREASE uni streams with 0/1/100 bytes left open / FIN / RESET, unknown capsules in DATA, "
             "unknown settings) into a complete live exchange in both roles, with the raw peer writing in one piece and cut into 1- / 2- / "
-            "5- / 300-byte pieces that travel in separate packets; the outcome (session established, probe stream delivered, "
+            "5- / 300-byte pieces that travel in separate packets, and with the peer finishing the session stream right after a late "
+            "insertion instead of sending the close capsule (readers part: the stream also ends cleanly after every exchange, and the way "
+            "the end is reported must equal the baseline's); the outcome (session established, probe stream delivered, "
             "streams handed to the application, reported end (7, \"bye\")) must equal the baseline without insertions.",
             SIM_NOTE + " Domain: inserted frames of at most 4096 payload bytes (the reader's documented frame cap).",
             "exhaustive enumeration of insertion positions x element shapes on the real readers and the real driver, metamorphic oracle"),
@@ -267,7 +273,8 @@ CHECKS = {
             "idle timeout (7 s) and keep-alive (2 s) honoured over 30 s of silence; idle timeout on each side in {default, 1 s, 5 s, 10 min, disabled} x keep-alive off / T/3 x partition / idle "
             "healthy network measured in virtual time (TimedOut at min(T) / survives >= 6 T / never dies within 1 h); representability of "
             "max_idle_timeout (17 values from 0 over both sides of 2^62 ms and of 2^64 ms to Duration::MAX); client migration with allow_migration on / off; reload_config (new connections see the "
-            "new identity and transport settings, the established connection keeps working).",
+            "new identity and transport settings, the established connection keeps working; on real loopback sockets also with "
+            "rebind = true, where a client pinned to the old identity must be refused and one pinned to the new identity served at the new address).",
             SIM_NOTE + " Bind rows need IPv6 loopback (reported as uncovered otherwise); Linux forces IPV6_V6ONLY on non-wildcard binds, so the "
             "option is judged on wildcard binds only.",
             "exhaustive enumeration of finite configuration matrices on real sockets and on the real stack under deterministic simulation"),
